@@ -1,5 +1,458 @@
 import RV.Json
+import RV.Model.Custom
+import RV.Oracle.C15
+/-!
+  Driver for suite "custom" (C15).  Ops `seq` and `script`, see harness/suite_custom.go.
+-/
 namespace RV.Drv.Custom
-open Lean RV
-def handle : Handler := fun op _ _ => .error s!"Custom: op {op} not implemented"
+open Lean RV RV.Custom RV.Oracle.C15
+
+/-! ### JSON ↔ model values -/
+
+partial def jOfJson : Json → R J
+  | .null => .ok .null
+  | .bool b => .ok (.bool b)
+  | .num n => if n.exponent == 0 then .ok (.int n.mantissa) else .error s!"non-integer number {n}"
+  | .str s => .ok (.str s)
+  | .arr a => do return .arr (← a.toList.mapM jOfJson)
+  | .obj kvs => do return .obj (← kvs.toList.mapM fun (k, v) => do return (k, ← jOfJson v))
+
+partial def jToJson : J → Json
+  | .null => .null
+  | .bool b => .bool b
+  | .int n => intJ n
+  | .str s => .str s
+  | .arr xs => arrJ (xs.map jToJson)
+  | .obj kvs => mkObj (kvs.map fun (k, v) => (k, jToJson v))
+
+def strMapOfJson (j : Json) : R StrMap :=
+  match j with
+  | .null => .ok []
+  | .obj kvs => kvs.toList.mapM fun (k, v) => do return (k, ← jstr v)
+  | _ => .error s!"string map expected: {j.compress}"
+
+def strMapToJson (m : StrMap) : Json := mkObj (m.map fun (k, v) => (k, strJ v))
+
+def dataToJson (d : Data) : Json :=
+  mkObj [("spec", jToJson d.spec), ("labels", strMapToJson d.labels), ("annotations", strMapToJson d.annotations)]
+
+def dataOfJson (j : Json) : R Data := do
+  let spec ← jOfJson (jgetD j "spec" .null)
+  let labels ← strMapOfJson (jgetD j "labels" .null)
+  let anns ← strMapOfJson (jgetD j "annotations" .null)
+  return { spec := spec, labels := labels, annotations := anns }
+
+/-- the codec instance the driver runs the model with: Lean's JSON printer / parser.
+    (`json.Unmarshal` errors are ignored by the Go code: garbage decodes to the zero `Data`.) -/
+def codec : Codec where
+  enc d := (dataToJson d).compress
+  dec s :=
+    match Json.parse s with
+    | .ok j =>
+      match dataOfJson j with
+      | .ok d => d
+      | .error _ => { spec := .null, labels := [], annotations := [] }
+    | .error _ => { spec := .null, labels := [], annotations := [] }
+
+def origOfJson (j : Json) : R (Option String) :=
+  match j with
+  | .null => .ok none
+  | _ =>
+    match jopt j "d", jopt j "raw" with
+    | some d, _ => do return some (codec.enc (← dataOfJson d))
+    | _, some r => do return some (← jstr r)
+    | _, _ => .error s!"bad orig {j.compress}"
+
+def objOfJson (j : Json) : R Obj := do
+  let spec ← match ← fArr j "spec" with
+    | [] => pure none
+    | [v] => do pure (some (← jOfJson v))
+    | _ => .error "spec: 0 or 1 element expected"
+  let labels ← match jopt j "labels" with
+    | none => pure none
+    | some l => do pure (some (← strMapOfJson l))
+  let anns ← match jopt j "annotations" with
+    | none => pure none
+    | some l => do pure (some (← strMapOfJson l))
+  let orig ← origOfJson (jgetD j "orig" .null)
+  let anns := match orig with
+    | none => anns
+    | some s => some ((anns.getD []) ++ [(origKey, s)])
+  return { spec := spec, labels := labels, annotations := anns }
+
+def origToJson (s : String) : Json :=
+  if s == "" then mkObj [("raw", strJ s)]
+  else match Json.parse s with
+    | .ok (.obj o) => mkObj [("d", dataToJson (codec.dec (Json.obj o).compress))]
+    | _ => mkObj [("raw", strJ s)]
+
+def objToJson (o : Obj) : Json :=
+  let orig := match o.annotations with
+    | none => Json.null
+    | some a => match lookup origKey a with
+      | none => Json.null
+      | some s => origToJson s
+  mkObj [("spec", match o.spec with | none => arrJ [] | some v => arrJ [jToJson v]),
+         ("labels", optJ strMapToJson o.labels),
+         ("annotations", optJ (fun a => strMapToJson (eraseKey origKey a)) o.annotations),
+         ("orig", orig)]
+
+def optObjToJson : Option Obj → Json
+  | none => .null
+  | some o => objToJson o
+
+def optObjOfJson (j : Json) : R (Option Obj) :=
+  match j with
+  | .null => .ok none
+  | _ => do return some (← objOfJson j)
+
+def resToJson : Res → Json
+  | .ok true => strJ "ok:true"
+  | .ok false => strJ "ok:false"
+  | .err => strJ "err"
+
+def resOfJson (j : Json) : R Res := do
+  match ← jstr j with
+  | "ok:true" => return .ok true
+  | "ok:false" => return .ok false
+  | "err" => return .err
+  | s => .error s!"bad result {s}"
+
+/-! ### strategy, generated scripts -/
+
+def kvMatchOfJson (j : Json) : R KVMatch := do
+  return { ty := ← fOptStr j "type", name := ← fStr j "name", value := ← fStr j "value" }
+
+def strategyOfJson (j : Json) : R Strategy := do
+  let traffic ← match jopt j "traffic" with
+    | none => pure Traffic.none
+    | some t =>
+      match jopt t "p" with
+      | some p => do pure (Traffic.pct (← jint p))
+      | none => pure Traffic.bad
+  let mts ← (← fArr j "matches").mapM fun m => do
+    let path ← match jopt m "path" with
+      | none => pure none
+      | some p => do pure (some ({ ty := ← fOptStr p "type", value := ← fOptStr p "value" } : PathMatch))
+    let hs ← (← jarr (jgetD m "headers" (arrJ []))).mapM kvMatchOfJson
+    let qs ← (← jarr (jgetD m "queryParams" (arrJ []))).mapM kvMatchOfJson
+    pure ({ path := path, headers := hs, queryParams := qs } : HttpMatch)
+  let pairs (k : String) (h : Json) : R (List (String × String)) := do
+    (← jarr (jgetD h k (arrJ []))).mapM fun p => do
+      match ← jarr p with
+      | [a, b] => do pure (← jstr a, ← jstr b)
+      | _ => .error "pair expected"
+  let hdr ← match jopt j "hdrMod" with
+    | none => pure none
+    | some h => do
+      let rem ← (← jarr (jgetD h "remove" (arrJ []))).mapM jstr
+      pure (some ({ set := ← pairs "set" h, add := ← pairs "add" h, remove := rem } : HeaderMod))
+  return { traffic := traffic, mts := mts, hdrMod := hdr }
+
+def valOfJson (j : Json) : R Val := do
+  match ← fStr j "kind" with
+  | "weight" => return .weight
+  | "stableWeight" => return .stableWeight
+  | "weightStr" => return .weightStr
+  | "canarySvc" => return .canarySvc
+  | "stableSvc" => return .stableSvc
+  | "int" => return .int (← fInt j "n")
+  | "str" => return .str (← fStr j "s")
+  | k => .error s!"bad val kind {k}"
+
+partial def stmtOfJson (j : Json) : R Stmt := do
+  match ← fStr j "op" with
+  | "ensureSpec" => return .ensureSpec
+  | "setSpec" => return .setSpec (← fStr j "k") (← valOfJson (← jget j "v"))
+  | "delSpec" => return .delSpec (← fStr j "k")
+  | "appendSpec" => return .appendSpec (← fStr j "k") (← valOfJson (← jget j "v"))
+  | "setLabel" => return .setLabel (← fStr j "k") (← valOfJson (← jget j "v"))
+  | "delLabel" => return .delLabel (← fStr j "k")
+  | "clearLabels" => return .clearLabels
+  | "setAnn" => return .setAnn (← fStr j "k") (← valOfJson (← jget j "v"))
+  | "delAnn" => return .delAnn (← fStr j "k")
+  | "clearAnns" => return .clearAnns
+  | "failIfWeightGt" => return .failIfWeightGt (← fInt j "n")
+  | "onlyIfMatches" => return .onlyIfMatches (← stmtOfJson (← jget j "st"))
+  | o => .error s!"bad stmt {o}"
+
+def genScriptOfJson (j : Json) : R GenScript := do
+  let stmts ← (← fArr j "stmts").mapM stmtOfJson
+  let ret ← match ← fStr j "ret" with
+    | "data" => pure Ret.data
+    | "number" => pure Ret.number
+    | "empty" => pure Ret.empty
+    | r => .error s!"bad ret {r}"
+  return { stmts := stmts, ret := ret }
+
+/-! ### which inputs the hand translations cover -/
+
+def destSupported (d : J) : Bool :=
+  match d with
+  | .obj kvs =>
+    (match lookup "weight" kvs with
+      | none => true
+      | some (.int _) => true
+      | some _ => false)
+    && (match lookup "destination" kvs with
+      | some (.obj dk) => match lookup "host" dk with
+        | none => true
+        | some (.str _) => true
+        | some _ => false
+      | _ => true)
+  | _ => true
+
+def ruleSupported (r : J) : Bool :=
+  match r with
+  | .obj kvs => match lookup "route" kvs with
+    | some (.arr ds) => ds.all destSupported
+    | _ => true
+  | _ => true
+
+def matchSupported (m : HttpMatch) : Bool :=
+  (match m.path with
+    | none => true
+    | some p => (matchTypeOfPath p.ty).isSome)
+  && m.headers.all (fun h => (matchTypeOfKV h.ty).isSome)
+  && m.queryParams.all (fun h => (matchTypeOfKV h.ty).isSome)
+
+/-- shapes on which `vsScript` is a faithful translation (elsewhere Lua's coercions of numbers /
+    strings and the leaking global `matchType` decide, which the model does not reproduce). -/
+def vsSupported (d : Data) (s : Strategy) : Bool :=
+  s.mts.all matchSupported &&
+  match decJ d.spec with
+  | .obj kvs => protos.all fun p =>
+    match lookup p kvs with
+    | some (.arr rules) => rules.all ruleSupported
+    | _ => true
+  | _ => true
+
+/-- generated scripts assume `spec` is an object or nil. -/
+def genSupported (d : Data) : Bool :=
+  match d.spec with
+  | .obj _ => true
+  | .null => true
+  | _ => false
+
+/-! ### references -/
+
+structure RefIn where
+  kind : String
+  script : Option Script
+  obj : Option Obj
+  supported : Data → Strategy → Bool
+
+def refOfJson (stable canary : String) (j : Json) : R RefIn := do
+  let kind ← fStr j "kind"
+  let obj ← optObjOfJson (jgetD j "obj" .null)
+  match kind with
+  | "vs" => return { kind, script := some (vsScript stable canary), obj, supported := vsSupported }
+  | "dr" => return { kind, script := some drScript, obj, supported := fun _ _ => true }
+  | "gen" =>
+    match jopt j "gen" with
+    | none => return { kind, script := none, obj, supported := fun _ _ => true }
+    | some g =>
+      let noScript ← jbool (jgetD j "noScript" (boolJ false))
+      if noScript then return { kind, script := none, obj, supported := fun _ _ => true }
+      else do
+        let gs ← genScriptOfJson g
+        return { kind, script := some (genScript stable canary gs), obj, supported := fun d _ => genSupported d }
+  | k => .error s!"bad ref kind {k}"
+
+def freshToJson (r : RefIn) (s : Strategy) : Json :=
+  match r.obj, r.script with
+  | some o, some f =>
+    match f (dataOf o) s with
+    | some d => dataToJson d
+    | none => strJ "err"
+  | _, _ => .null
+
+def objsJson (st : List Ref) : Json := arrJ (st.map fun r => optObjToJson r.obj)
+
+/-! ### tags -/
+
+def specTag (o : Obj) : String :=
+  match o.spec with
+  | none => "spec:absent"
+  | some .null => "spec:null"
+  | some (.obj []) => "spec:{}"
+  | some (.obj _) => "spec:object"
+  | some _ => "spec:other"
+
+def mapTag (n : String) (m : Option StrMap) : String :=
+  match m with
+  | none => s!"{n}:absent"
+  | some [] => s!"{n}:empty"
+  | some _ => s!"{n}:nonempty"
+
+def strategyTags (s : Strategy) : List String :=
+  [match s.traffic with
+    | .none => "traffic:nil"
+    | .bad => "traffic:bad-string"
+    | .pct p => if p < 0 then "traffic:negative" else if p = 0 then "traffic:0" else if p < 100 then "traffic:1-99"
+                else if p = 100 then "traffic:100" else "traffic:>100",
+   if s.mts = [] then "step:weight" else "step:matches"]
+  ++ (if s.hdrMod.isSome then ["hdrMod"] else [])
+
+/-- how the VirtualService rules of a spec are classified by the property. -/
+def vsRuleTags (stable : String) (spec : J) : List String :=
+  match decJ spec with
+  | .obj kvs => protos.foldl (fun acc p =>
+      match lookup p kvs with
+      | some (.arr rules) => acc ++ rules.map fun r =>
+          if hasMatch r then "rule:has-match"
+          else if noStableDest stable r then "rule:other-hosts"
+          else if (singleStable stable r).isSome then "rule:single-stable"
+          else match ruleMult stable r with
+            | none => "rule:script-error"
+            | some 0 => "rule:other"
+            | some 1 => "rule:stable-among-several"
+            | some _ => "rule:several-stable"
+      | _ => acc) []
+  | _ => []
+
+/-! ### ops -/
+
+def handleScript (inp impl : Json) : R OpResult := do
+  let stable ← fStr inp "stable"
+  let canary ← fStr inp "canary"
+  let r ← refOfJson stable canary (mkObj [("kind", ← jget inp "kind"), ("gen", jgetD inp "gen" .null),
+                                           ("noScript", boolJ false), ("obj", .null)])
+  let d ← dataOfJson (← jget inp "data")
+  let s ← strategyOfJson (← jget inp "strategy")
+  let f ← match r.script with
+    | some f => pure f
+    | none => .error "script op without script"
+  let supported := r.supported d s
+  let out := f d s
+  let model := if supported then (match out with | some d' => dataToJson d' | none => strJ "err") else Json.null
+  -- oracles on the implementation's output
+  let implData : Option Data := match impl with
+    | .str _ => none
+    | j => match dataOfJson j with
+      | .ok d => some d
+      | .error _ => none
+  let mut holds : List (String × Bool) := []
+  let mut tags : List String := [s!"script:{r.kind}", if supported then "shape:modelled" else "shape:unmodelled"]
+  tags := tags ++ strategyTags s
+  match impl with
+  | .str _ => tags := tags ++ ["script-result:error"]
+  | _ => tags := tags ++ ["script-result:ok"]
+  if r.kind == "vs" then
+    tags := tags ++ (vsRuleTags stable d.spec).eraseDups
+    match implData with
+    | some o =>
+      if s.mts = [] then
+        holds := holds ++ [("C15.istio", vsWeightOK stable canary (canaryWeight s) (decJ d.spec) o.spec
+                                          && decide (o.labels = d.labels) && decide (o.annotations = d.annotations))]
+    | none => pure ()
+  if r.kind == "dr" then
+    match implData with
+    | some o => holds := holds ++ [("C15.istio", drOK (decJ d.spec) o.spec
+                                     && decide (o.labels = d.labels) && decide (o.annotations = d.annotations))]
+    | none => pure ()
+  return { model := model, holds := holds, tags := tags }
+
+def handleSeq (inp impl : Json) : R OpResult := do
+  let stable ← fStr inp "stable"
+  let canary ← fStr inp "canary"
+  let refs ← (← fArr inp "refs").mapM (refOfJson stable canary)
+  let steps ← (← fArr inp "steps").mapM strategyOfJson
+  let st0 : List Ref := refs.map fun r => ⟨r.script, r.obj⟩
+  -- is every script execution of this case inside the modelled shapes?
+  let supported := refs.all fun r => match r.obj with
+    | none => true
+    | some o => steps.all fun s => r.supported (dataOf o) s
+  -- model run
+  let mut st := st0
+  let mut stepsOut : List Json := []
+  for s in steps do
+    let (st1, r1) := ensureRoutes codec s st
+    let (st2, r2) := ensureRoutes codec s st1
+    let same := decide (st2.map (·.obj) = st1.map (·.obj))
+    stepsOut := stepsOut ++ [mkObj [("res", resToJson r1), ("objs", objsJson st1), ("res2", resToJson r2),
+                                    ("same2", boolJ same), ("fresh", arrJ (refs.map fun r => freshToJson r s))]]
+    st := st2
+  let (stF, rF) := finalise codec st
+  let (stF2, rF2) := finalise codec stF
+  let model := mkObj [("steps", arrJ stepsOut),
+                      ("fin", mkObj [("res", resToJson rF), ("objs", objsJson stF)]),
+                      ("fin2", mkObj [("res", resToJson rF2), ("same", boolJ (decide (stF2.map (·.obj) = stF.map (·.obj))))])]
+  -- oracles on the implementation's output
+  let allPresent := refs.all (·.obj.isSome)
+  let origObjs := refs.filterMap (·.obj)
+  let pristine := origObjs.all noOrig
+  let implSteps ← fArr impl "steps"
+  let mut holds : List (String × Bool) := []
+  let mut tags : List String := [s!"refs:{refs.length}", s!"steps:{steps.length}"]
+  tags := tags ++ (refs.map fun r => s!"ref:{r.kind}").eraseDups
+  tags := tags ++ (if allPresent then [] else ["ref:missing-object"])
+  tags := tags ++ (if refs.any (fun r => r.script.isNone) then ["ref:no-script"] else [])
+  tags := tags ++ (if pristine then [] else ["stale-original-annotation"])
+  tags := tags ++ (origObjs.map specTag ++ origObjs.map (fun o => mapTag "labels" o.labels)
+                    ++ origObjs.map (fun o => mapTag "annotations" o.annotations)).eraseDups
+  tags := tags ++ [if supported then "shape:modelled" else "shape:unmodelled"]
+  -- Env: the scripts are deterministic.  The shipped VirtualService script is not when a match type
+  -- is missing / unknown (it then reads a stale global); the CRDs default and enumerate the types.
+  let detOK := steps.all fun s => s.mts.all matchSupported
+  tags := tags ++ (if detOK then [] else ["env:match-type-missing(nondeterministic-script)"])
+  let mut anyOk := false
+  let mut idx := 0
+  for (s, js) in steps.zip implSteps do
+    idx := idx + 1
+    let res ← resOfJson (← jget js "res")
+    let objs ← (← fArr js "objs").mapM optObjOfJson
+    let res2 ← resOfJson (← jget js "res2")
+    let same2 ← fBool js "same2"
+    tags := tags ++ strategyTags s
+    tags := tags ++ [match res with
+      | .ok true => "ensure:done"
+      | .ok false => "ensure:updated"
+      | .err => "ensure:error"]
+    -- idempotence: judged from the implementation's own second call
+    if detOK then
+      holds := holds ++ [("C15.idempotent", idemOK res res2 same2)]
+    match res with
+    | .ok _ =>
+      anyOk := true
+      if allPresent && pristine && detOK then
+        -- statelessness: against the script run on the original object alone (implementation's `fresh`)
+        let fresh ← (← fArr js "fresh").mapM fun f => match f with
+          | .str _ => pure none
+          | .null => pure none
+          | j => do pure (some (← dataOfJson j))
+        let ok := match fresh.mapM id with
+          | some ds => statelessOK codec origObjs ds objs
+          | none => false
+        holds := holds ++ [("C15.stateless", ok)]
+        if idx > 1 then tags := tags ++ ["stateless:after-earlier-steps"]
+    | .err => pure ()
+  let fin ← jget impl "fin"
+  let finObjs ← (← fArr fin "objs").mapM optObjOfJson
+  let finRes ← resOfJson (← jget fin "res")
+  if pristine then
+    if allPresent && steps.length > 0 then
+      holds := holds ++ [("C15.restore", restoreOK origObjs finObjs && decide (finRes = .ok true))]
+      tags := tags ++ ["restore:after-steps"]
+    else
+      -- nothing was ever stored: Finalise must not touch anything
+      holds := holds ++ [("C15.restore", decide (finObjs = refs.map (·.obj)) && decide (finRes = .ok false))]
+      tags := tags ++ ["restore:untouched"]
+  let fin2 ← jget impl "fin2"
+  holds := holds ++ [("C15.restore-idempotent", decide ((← resOfJson (← jget fin2 "res")) = .ok false) && (← fBool fin2 "same"))]
+  if steps.length == 0 then tags := tags ++ ["trivial"]
+  let _ := anyOk
+  return { model := if supported then model else .null, holds := holds, tags := tags.eraseDups }
+
+def handle : Handler := fun op inp impl => do
+  match impl with
+  | .obj _ =>
+    if (jopt impl "panic").isSome then
+      return { model := .null, holds := [("C15.no-panic", false)], tags := ["panic"] }
+  | _ => pure ()
+  match op with
+  | "seq" => handleSeq inp impl
+  | "script" => handleScript inp impl
+  | _ => .error s!"custom: unknown op {op}"
+
 end RV.Drv.Custom
